@@ -154,4 +154,18 @@ PROPS = {
                          "variable_db / variable_order counters are opaque structs: their lifetime is observed only through the sanitizers"],
         "assumptions": ["holders are released at most once (balanced histories)"],
     },
+    "C03": {
+        "level": "proof",
+        "lean_targets": ["LP.Props.C03"],
+        "harnesses": [{"name": "h_gcd", "quick": 6000, "thorough": 80000}],
+        "select": lambda t: t[1] in ("gcd", "ugcd"),
+        "nontrivial": lambda t, r: True,
+        "rule": "operands p = g0*a, q = g0*b over Z (1-3 variables) and univariate over Z, Z_5, Z_13 with numeric, monomial, trivial and "
+                "polynomial common factors g0, plus zero, equal and coprime operands; every gcd is computed under three strategy settings "
+                "(default / heuristic discarded / univariate shortcut disabled) through the LIBPOLY_VERIF hooks. Every case is non-trivial "
+                "(a gcd-family computation); distinct = distinct line.",
+        "trusted_base": ["coprimality certificates: Bezout identity over Q[x] at an integer specialisation that keeps a leading coefficient + coprime integer contents; "
+                         "the argument that such certificates exclude every common factor is classical and not formalised (the Bezout and divisibility parts are proved)"],
+        "assumptions": ["extended gcd / Bezout only over prime fields and within the documented degree bounds"],
+    },
 }
